@@ -1,12 +1,19 @@
 import Proofs.Blade
 import Proofs.Fund
+import Proofs.Project
+import Proofs.Index
 import Props.C05
 
 /-! # C09 — blade subspace operations: the algebraic core
 
-PARTIAL: idempotence/containment/orthogonality of `project`, the grade formulas of `join`/`meet`, `factorise` and
-`basis` reassembly are decided by evaluation on the implementation (integer spanning vectors); the theorems below are the
-identities those operations rest on. -/
+`project`: for a blade given as a product of pairwise orthogonal invertible vectors (`B = b₁ ⋯ b_k`; every non-null blade of
+a real non-degenerate algebra is a scalar multiple of one — Gram–Schmidt, not formalised — and `project` does not depend on
+the scale), `(x ⌋ B) B⁻¹` with the coded table is the orthogonal projection `Σ (x·b_i / b_i²) b_i`; it is idempotent, lies
+in `B`, and the remainder is orthogonal to `B` (`project_*` below).
+
+PARTIAL: that reduction for oblique spanning vectors, the grade formulas of `join`/`meet`, `factorise` and `basis` reassembly
+are decided by evaluation on the implementation (integer spanning vectors); the other theorems below are the identities
+those operations rest on. -/
 
 namespace C09
 open Model
@@ -42,5 +49,82 @@ theorem one_plus_unit_vector_not_versor {n : Nat} {sig : Nat → R} (v : Cl n si
     ¬ ∃ X : Cl n sig, X * (1 + v) = 1 := by
   have := C05.one_add_e_singular v hv hne (1 : R)
   simpa using this
+
+
+/-! ### `B.project(x)` for an orthogonally factorised blade -/
+section Project
+variable {F : Type} [Field F] {n : Nat} {sig : Nat → F}
+open Proj
+
+/-- hypotheses shared by the `project_*` theorems: `bs` are pairwise anticommuting vectors with invertible squares `q b`,
+    `x` is a vector with anticommutators `x b + b x = d b` -/
+structure OrthoBlade (bs : List (Cl n sig)) (q : Cl n sig → F) : Prop where
+  vec : ∀ b ∈ bs, IsHom n 1 b
+  sq : ∀ b ∈ bs, b * b = q b • (1 : Cl n sig) ∧ q b ≠ 0
+  orth : bs.Pairwise (fun a b => a * b = -(b * a))
+
+/-- the product of the inverse factors is the two-sided inverse of `B` (what `B.inv()` returns, by uniqueness of inverses) -/
+theorem project_blade_inverse (bs : List (Cl n sig)) (q : Cl n sig → F) (h : OrthoBlade bs q) :
+    bs.prod * pinv q bs = 1 ∧ pinv q bs * bs.prod = 1 := ⟨prod_mul_pinv q bs h.sq, pinv_mul_prod q bs h.sq⟩
+
+/-- **`2·B.project(x) = Σ_i (d_i / q_i) b_i`**: the orthogonal projection onto the span of the factors -/
+theorem project_formula (x : Cl n sig) (hx : IsHom n 1 x) (bs : List (Cl n sig)) (d q : Cl n sig → F) (h : OrthoBlade bs q)
+    (hd : ∀ b ∈ bs, x * b + b * x = d b • (1 : Cl n sig)) :
+    (asCl (mmul n sig lcmtCheck x bs.prod) + asCl (mmul n sig lcmtCheck x bs.prod)) * pinv q bs = proj d q bs :=
+  two_project x hx bs h.vec d q h.sq h.orth hd
+
+/-- **idempotent**: projecting `y = project(x) = ½ Σ (d_i/q_i) b_i` again returns `y` (`2·project(y) = 2·y`) -/
+theorem project_idempotent (h2 : (2 : F) ≠ 0) (bs : List (Cl n sig)) (d q : Cl n sig → F) (h : OrthoBlade bs q) :
+    (asCl (mmul n sig lcmtCheck ((2 : F)⁻¹ • proj d q bs : Cl n sig) bs.prod)
+      + asCl (mmul n sig lcmtCheck ((2 : F)⁻¹ • proj d q bs : Cl n sig) bs.prod)) * pinv q bs = proj d q bs :=
+  Proj.project_idempotent h2 bs h.vec d q h.sq h.orth
+
+/-- **lies in `B`**: `project(x) ∧ B = 0` -/
+theorem project_lies_in_blade (h2 : (2 : F) ≠ 0) (bs : List (Cl n sig)) (d q : Cl n sig → F) (h : OrthoBlade bs q) :
+    wedge n ((2 : F)⁻¹ • proj d q bs : Cl n sig) bs.prod = 0 := by
+  have := project_in_blade h2 bs h.vec d q h.sq h.orth
+  exact (mmul_omt_eq_wedge n sig _ _).symm.trans this
+
+/-- **the remainder is orthogonal to `B`**: `x − project(x)` anticommutes with every factor, and `(x − project(x)) ⌋ B = 0` -/
+theorem project_remainder_orthogonal (h2 : (2 : F) ≠ 0) (x : Cl n sig) (hx : IsHom n 1 x) (bs : List (Cl n sig))
+    (d q : Cl n sig → F) (h : OrthoBlade bs q) (hd : ∀ b ∈ bs, x * b + b * x = d b • (1 : Cl n sig)) :
+    (∀ c ∈ bs, (x - (2 : F)⁻¹ • proj d q bs) * c + c * (x - (2 : F)⁻¹ • proj d q bs) = 0)
+    ∧ (asCl (mmul n sig lcmtCheck (x + (-1 : F) • ((2 : F)⁻¹ • proj d q bs : Cl n sig)) bs.prod) : Cl n sig) = 0 :=
+  ⟨fun c hc => remainder_orthogonal h2 x bs d q h.sq h.orth hd c hc,
+   remainder_contraction h2 x hx bs h.vec d q h.sq h.orth hd⟩
+
+/-- non-vacuity: `e₁, e₂` of Cl(1,−1) over ℚ form such a factorisation (a negative-norm factor included), with
+    `q b` the scalar part of `b²` -/
+example : OrthoBlade (n := 2) (sig := fun i => if i = 0 then (1 : ℚ) else -1)
+    [Cl.e 0 (by decide), Cl.e 1 (by decide)] (fun b => (b * b) fzero) := by
+  have hs : ∀ (i : Nat) (hi : i < 2), ((Cl.e i hi : Cl 2 (fun i => if i = 0 then (1 : ℚ) else -1)) * Cl.e i hi)
+      = (if i = 0 then (1 : ℚ) else -1) • (1 : Cl 2 _) := fun i hi => Cl.e_sq i hi
+  have h1 : ((1 : Cl 2 (fun i => if i = 0 then (1 : ℚ) else -1)) fzero) = 1 := by
+    show (one 2 : CMV 2 ℚ) fzero = 1
+    simp [one]
+  refine ⟨?_, ?_, ?_⟩
+  · intro b hb
+    simp only [List.mem_cons, List.not_mem_nil, or_false] at hb
+    rcases hb with rfl | rfl
+    · have := blade_hom (R := ℚ) 2 ⟨2 ^ 0, by decide⟩; rwa [pc_two_pow 2 0 (by decide)] at this
+    · have := blade_hom (R := ℚ) 2 ⟨2 ^ 1, by decide⟩; rwa [pc_two_pow 2 1 (by decide)] at this
+  · intro b hb
+    simp only [List.mem_cons, List.not_mem_nil, or_false] at hb
+    rcases hb with rfl | rfl
+    · rw [hs 0 (by decide)]
+      have e : (((if (0 : Nat) = 0 then (1 : ℚ) else -1) • (1 : Cl 2 (fun i => if i = 0 then (1 : ℚ) else -1))) fzero) = 1 := by
+        show (if (0 : Nat) = 0 then (1 : ℚ) else -1) * (1 : Cl 2 _) fzero = 1
+        rw [h1]; simp
+      rw [e]; simp
+    · rw [hs 1 (by decide)]
+      have e : (((if (1 : Nat) = 0 then (1 : ℚ) else -1) • (1 : Cl 2 (fun i => if i = 0 then (1 : ℚ) else -1))) fzero) = -1 := by
+        show (if (1 : Nat) = 0 then (1 : ℚ) else -1) * (1 : Cl 2 _) fzero = -1
+        rw [h1]; simp
+      rw [e]; simp
+  · simp only [List.pairwise_cons, List.mem_cons, List.not_mem_nil, or_false, forall_eq, IsEmpty.forall_iff, implies_true,
+      List.Pairwise.nil, and_true]
+    exact Cl.e_anticomm 0 1 (by decide) (by decide) (by decide)
+
+end Project
 
 end C09
